@@ -120,9 +120,13 @@ func GuardedIsAssignable(a px.Type, b px.Type, g px.Guard) bool {
 	case *UnitType:
 		return true
 	case *NotUndefType:
+		// NotUndef[T] is a subset of T: whoever accepts T accepts it
 		nt := b.typ
+		if GuardedIsAssignable(a, nt, g) {
+			return true
+		}
 		if !GuardedIsAssignable(nt, undefTypeDefault, g) {
-			return GuardedIsAssignable(a, nt, g)
+			return false
 		}
 	case *OptionalType:
 		if GuardedIsAssignable(a, undefTypeDefault, g) {
